@@ -699,7 +699,7 @@ pub fn run(ctx: &Ctx, prop: &str) -> Report {
     stage("ribbon.histories_per_rate", r, &mut rep, t0);
     // (b) many more histories on the cheap (small-buffer) rates
     let t0 = std::time::Instant::now();
-    let n_hist = ctx.budget(4, 1500, 60_000) as usize;
+    let n_hist = ctx.budget(4, 4_000, 300_000) as usize;
     let shards = if small { 1 } else { 64 };
     let r = par_shards(ctx, shards, |sh| {
         let mut rep = Report::new();
